@@ -34,7 +34,7 @@ CHECKS = {
    engine='kani', category='proof', design_ref='DESIGN.md §2 C24',
    technique='contract harnesses (Kani/CBMC) on cabi_realloc extracted verbatim each run, allocator replaced by GlobalAlloc-contract stubs with a ghost ledger; real Cleanup driven in place',
    text='PARTIAL. Proved for all four usize arguments (loop-free, unbounded): cabi_realloc returns a non-null pointer aligned as requested, returns the alignment value itself for a zero-sized fresh allocation, calls the allocator only inside the GlobalAlloc contract (never zero size, realloc only with the layout the block was allocated with) and aborts instead of returning null. BOUNDED stand-ins, not counted as proved: contents preserved up to the smaller size (blocks of 1..=8 bytes on Kani\'s allocator model); Cleanup::new is null with no guard exactly when the size is zero, its block is freed exactly once with the same layout, forget does not free (layout size <= 6 because of the poison loop).',
-   note='Per-request contract; a request sequence is a composition of calls each of which meets its precondition because the previous result met its postcondition. Assumed host precondition (the code states it as a debug_assert): a live block is never resized to zero. Not covered: the cabi_dealloc item emitted as text by crates/rust/src/lib.rs; the wit_bindgen_cabi_realloc.rs C-symbol forwarder. Trusted: the global allocator honours GlobalAlloc; 64-bit usize stands in for wasm32. The contract-form counterexample is not replayed natively (allocator stubs are not applied by concrete playback); the contents/Cleanup ones are.'),
+   note='Per-request contract; a request sequence is a composition of calls each of which meets its precondition because the previous result met its postcondition. Assumed host precondition (the code states it as a debug_assert): a live block is never resized to zero. Also proved (all pointer/size/alignment values): the cabi_dealloc runtime item and the post-return functions, as the real Rust generator emits them for a string/list<u8> probe world, free nothing for a zero size and otherwise exactly the named block once with its own size and alignment. Not covered: the wit_bindgen_cabi_realloc.rs C-symbol forwarder. Trusted: the global allocator honours GlobalAlloc; 64-bit usize stands in for wasm32. The contract-form counterexample is not replayed natively (allocator stubs are not applied by concrete playback); the contents/Cleanup ones are.'),
  'C20': dict(
    engine='kani', category='proof', design_ref='DESIGN.md §2 C20',
    technique='contract harnesses on the real future write/read operations and typed wrappers (Kani/CBMC), complete enumeration of (operation, arrival, code)',
@@ -52,6 +52,23 @@ CHECKS['C04'] = dict(
    technique='contract harnesses on the real abi::cast (Kani/CBMC, loop-free, all type pairs x all bit patterns x both pointer widths) + verification conditions over the text the real per-backend Bitcast emitters produce (emitters extracted verbatim and run each run; z3 bit-vector proof per (backend, slot pair))',
    text='Proved: (1) for every (payload type t, joined slot type j) a valid variant can produce (closure of the Canonical ABI join, proved inductively) the real cast(t,j)/cast(j,t) do not panic, are well typed step by step, the lowering keeps the payload bits (zero-extended/reinterpreted), the lifting is the low-bits wrap, and the round trip is the identity on every bit pattern at both pointer widths; (2) for each of the seven backends and each such pair, the text its real emitter produces for the real cast result lifts as the wrap of the joined slot and round-trips every payload bit pattern, under that language\'s (trusted) integer-conversion semantics.',
    note='Trusted: the spec-side tables (join, widths, meaning of a conversion), the per-language semantics tables of vlib/exprvc.py, wit-parser\'s own join/push_flat. The upper bits a lowering writes into a wider slot are not constrained (the spec\'s lifting discards them); what each backend writes there (zero / sign fill / uninitialised) is reported in the evidence. Pointer width 32 for all backends, 64 additionally for Rust. z3 counterexamples are evaluated under the same table, not replayed natively.')
+
+CHECKS['C14'] = dict(
+   engine='exprvc', category='proof', design_ref='DESIGN.md §3 C14',
+   technique='verification conditions over the conversion text every backend emits for the 24 scalar instructions (templates extracted from the real emit() match arms each run; z3 bit-vector proof for all operand values), plus Kani contract harnesses on the bindings the real Rust generator produces for a probe world (full domain, loop-free)',
+   text='Proved for all operand values, per (backend, instruction), 7 backends x 24 scalar instructions: the emitted expression, typed with the backend\'s representation of the WIT scalar and of the core value, computes the Canonical ABI mapping (lowering zero-/sign-extends by the WIT signedness; lifting takes the low bits of an arbitrary core value with the type\'s own signedness; 64-bit and float values bit-exact; char = scalar value; bool 0/1). For Rust additionally, on the real generator\'s output for a probe world: every generated export trampoline lifts every core value and lowers every result value canonically (12 scalar types, Kani, full domain).',
+   note='Trusted: the per-language semantics tables (vlib/exprvc.py), the WIT-scalar -> target-type table (anchored in each backend\'s type printer), the meaning of the Rust runtime items char_lift/bool_lift/as_* in the z3 route (their generated text is what Kani verifies in the rustgen route). Template extraction reads only the scalar arms (shapes S1-S5, vlib/arms.py); an arm in another shape is undecided, not an alarm. Bool lifting is required on 0/1 only; char operands are restricted to Unicode scalar values. z3 counterexamples are evaluated under the same table; Kani counterexamples of the rustgen route carry concrete values.')
+CHECKS['C23'] = dict(
+   engine='kani', category='proof', design_ref='DESIGN.md §2 C23',
+   technique='contract harnesses on the real inter-task wakeup operations and the executor steps around them (Kani/CBMC, in-crate, one operation per harness from every reachable abstract state, complete enumeration of sleep states), representation invariant checked after every operation',
+   text='Per operation, from every reachable abstract state (no stream / stream idle / read pending; POLLING / WOKEN / SLEEPING): going to sleep starts exactly one wakeup read on a stream created at most once and joined to the task\'s own set; a wake writes exactly one item when the task is SLEEPING and nothing when POLLING or already WOKEN (repeats coalesced), any other state is rejected; the wakeup event is consumed by the runtime exactly for its own stream and the task is polled again; a pending read is cancelled exactly once, after leaving the waitable set, before the next poll and before the task is destroyed; the flag stream_reading always equals "the host has a pending read".',
+   note='The host delivering the stream event after the write is assumed (mock). Feature inter-task-wakeup. Under the model checker the task\'s waitable map is the two-slot finite map of hook 6328f56. Trusted: mock host, Kani/CBMC, x86-64 vs wasm32.')
+
+CHECKS['C07'] = dict(
+   engine='kani', category='proof', design_ref='DESIGN.md §9.6 C07',
+   technique='contract harnesses (Kani/CBMC, loop-free, all handle values) on the bindings the real Rust generator produces for a resource probe world, against a ledger-keeping mock host attached through the generated native import stand-ins',
+   text='PARTIAL (one probe world, see level_note). For every handle value: the generated Resource<T> item drops an owned handle exactly once with its Rust value and never uses or drops a handle that was given away; generated import glue transfers an owned argument exactly once without dropping it, never drops a borrowed argument or method receiver, and an owned result (function or constructor) is dropped exactly once when its value is dropped; generated export glue hands the user the owned handle (dropped exactly once with its value), transfers the handle of a newly created exported resource without dropping it, reaches the same Rust value through an owned handle and through a borrow, and destroys it exactly once in the destructor export.',
+   note='Proof for the generated code of kani/rustgen_res/probe.wit only (the generator is real and rebuilt each run; the world is fixed): not a statement about every world. Not covered: async, handles nested in aggregates, future/stream/error-context handles, host resource tables. Rule R1 (native import stand-ins call the mock host) is the only edit to generated text. 64-bit target: trampolines that take a borrow as core i32 are bypassed (pointer truncation).')
 
 NOT_APPLICABLE = {
  'C01': 'shared ABI generator is generic over Bindgen/Resolve with closures and iterator adapters (outside the Verus subset); Kani did not finish one tuple<u8,u32> through the real generator in 15 min (DESIGN §5)',
@@ -78,7 +95,7 @@ NOT_APPLICABLE = {
 }
 # planned but not built yet: listed as not_applicable until their check exists
 PENDING = {k: 'check not built yet in this session (planned: DESIGN §7)' for k in
-           ['C07','C14','C22','C23']}
+           ['C22']}
 
 def main():
     props = [json.loads(l) for l in open(os.path.join(HERE, 'properties.jsonl'))]
